@@ -69,6 +69,10 @@ type Verifier struct {
 	cellSeq   int
 	vacProbes, vacOK int
 	suppressObs int
+	sums        map[*ssa.Function]*fnSummary
+	sumChanged  bool
+	sumReached  map[*ssa.Function]bool
+	curCallee   *ssa.Function // static callee whose contract is being applied
 	forks       []fork
 	siteMap     map[*ssa.Function]map[ssa.Instruction][]*SiteAssert
 	noFork      int
@@ -176,7 +180,7 @@ func (v *Verifier) addOb(st *State, kind string, pos token.Pos, goal *Term, clau
 	name := fmt.Sprintf("%s#%s@%q%s", fname, kind, site, in)
 	if kind == "post" || kind == "inv-entry" || kind == "inv-step" || kind == "dec" || kind == "pre" || kind == "lock" || kind == "monitor" || kind == "frame" || kind == "assert" || kind == "step" {
 		name = fmt.Sprintf("%s#%s@%q%s", fname, kind, trunc(clause, 90), in)
-		if kind == "pre" || kind == "lock" || kind == "monitor" {
+		if kind == "pre" || kind == "lock" || kind == "monitor" || (kind == "dec" && strings.HasPrefix(clause, "decreases ")) || (kind == "dec" && strings.HasPrefix(clause, "recursive call")) {
 			name = fmt.Sprintf("%s#%s@%q@%q%s", fname, kind, trunc(clause, 70), site, in)
 		}
 	}
@@ -367,6 +371,18 @@ func (v *Verifier) runFunc(fn *ssa.Function, st *State, args []*Value, clo *Clos
 		}
 		states = mergeStates(states)
 		if len(states) > v.maxStates {
+			if os.Getenv("GOVC_DEBUG") == "merge" && len(states) >= 2 {
+				a, c := states[0], states[1]
+				fmt.Fprintf(os.Stderr, "DEBUG merge block %d (%s) states=%d\n", b.Index, b.Comment, len(states))
+				for k, ta := range a.heap {
+					if tb, ok := c.heap[k]; ok && ta != tb {
+						fmt.Fprintf(os.Stderr, "   heap %s differs:\n      %s\n      %s\n", k, trunc(ta.String(), 300), trunc(tb.String(), 300))
+					} else if !ok {
+						fmt.Fprintf(os.Stderr, "   heap %s only in first\n", k)
+					}
+				}
+				fmt.Fprintf(os.Stderr, "   held %d/%d defers %d/%d lazy %d/%d locksnap %v\n", len(a.held), len(c.held), len(a.frame.defers), len(c.frame.defers), len(a.lazyHavoc), len(c.lazyHavoc), a.lockSnap == c.lockSnap)
+			}
 			v.abort("path explosion in %s at block %d (%d states)", funcRef(fn), b.Index, len(states))
 		}
 		li := an.loops[b]
@@ -496,6 +512,13 @@ func (v *Verifier) cutLoop(fn *ssa.Function, an *fnAnalysis, li *loopInfo, s *St
 	for _, c := range invs {
 		s.assume(ev.boolExpr(c.Expr))
 	}
+	// the frame of the function under verification holds at every loop head (checked on the back edge)
+	if v.suppressObs == 0 {
+		_, fgoals := v.frameGoals(s, li.modHeap)
+		for _, g := range fgoals {
+			s.assume(g)
+		}
+	}
 	// snapshot of the iteration start for `loop N step` clauses (prev(e))
 	if len(v.loopSteps(fn, li)) > 0 {
 		if s.snaps == nil {
@@ -518,6 +541,12 @@ func (v *Verifier) backEdge(fn *ssa.Function, an *fnAnalysis, li *loopInfo, s *S
 	for _, c := range invs {
 		g := ev.boolExpr(c.Expr)
 		v.addOb(s, "inv-step", pos, g, fmt.Sprintf("loop %d invariant %s", li.ordinal, c.Text), c.Props)
+	}
+	if v.suppressObs == 0 {
+		fkeys, fgoals := v.frameGoals(s, li.modHeap)
+		for i, k := range fkeys {
+			v.addOb(s, "frame", pos, fgoals[i], fmt.Sprintf("loop %d modifies: %s changes only at the declared targets", li.ordinal, k), nil)
+		}
 	}
 	for i, c := range decs {
 		m0v := s.ghost[fmt.Sprintf("$measure!%p!%d!%d", fn, li.ordinal, i)]
@@ -923,7 +952,78 @@ func (v *Verifier) storeThrough(s *State, p *Value, val *Value, pos token.Pos) {
 	if len(val.L) != len(leafSpecs(lv.t)) {
 		v.abort("store leaf mismatch: %s <- %s", lv.t, val.T)
 	}
+	var vol []*VolatileSpec
+	var pre *State
+	if lv.kind == lvField && len(lv.path) == 0 {
+		if vol = v.volatileSpecs(lv.st, lv.field); len(vol) > 0 {
+			pre = s.clone()
+		}
+	}
 	s.store(lv, val)
+	for _, vs := range vol {
+		// a module function writing a volatile field keeps the relation foreign code is assumed to keep
+		self := scalar(types.NewPointer(lv.st), lv.obj)
+		ev := &Eval{v: v, st: s, old: pre, env: map[string]*Value{"self": self}, mode: evalCall, pkg: fnPkg(v.top)}
+		v.addOb(s, "volatile", pos, ev.boolExpr(vs.Rel), "volatile "+typeName(lv.st)+"."+vs.Field+": "+vs.Text, vs.Props)
+	}
+}
+
+// volatileSpecs returns the volatile declarations for field i of struct type st.
+func (v *Verifier) volatileSpecs(st types.Type, i int) []*VolatileSpec {
+	tc := v.contracts.types[typeName(st)]
+	if tc == nil || len(tc.Volatile) == 0 {
+		return nil
+	}
+	u, ok := under(st).(*types.Struct)
+	if !ok {
+		return nil
+	}
+	var out []*VolatileSpec
+	for _, vs := range tc.Volatile {
+		if vs.Field == u.Field(i).Name() && (len(vs.Props) == 0 || hasProp(vs.Props, curProp)) {
+			out = append(out, vs)
+		}
+	}
+	return out
+}
+
+// havocVolatile: a call that leaves the verified code may run methods of module objects it holds behind interfaces;
+// declared volatile fields change as their relation allows, on every object.
+func (v *Verifier) havocVolatile(s *State) {
+	for _, tk := range sortedKeys(v.contracts.types) {
+		tc := v.contracts.types[tk]
+		for _, vs := range tc.Volatile {
+			if len(vs.Props) > 0 && !hasProp(vs.Props, curProp) {
+				continue
+			}
+			nt := v.lookupNamedType(tc.Key)
+			if nt == nil {
+				continue
+			}
+			u, ok := under(nt).(*types.Struct)
+			if !ok {
+				continue
+			}
+			for i := 0; i < u.NumFields(); i++ {
+				if u.Field(i).Name() != vs.Field {
+					continue
+				}
+				pre := s.clone()
+				var nh *Term
+				for _, hk := range heapKeys(structFieldBase(nt, i), u.Field(i).Type(), SInt) {
+					nh = s.freshHeap("Hv!", hk.name, hk.sort)
+				}
+				r := BoundVar("r!vol", SInt)
+				self := scalar(types.NewPointer(nt), r)
+				ev := &Eval{v: v, st: s, old: pre, env: map[string]*Value{"self": self}, mode: evalCall, pkg: fnPkg(v.top)}
+				rel := ev.boolExpr(vs.Rel)
+				// a fact about the fresh array only (the relation is reflexive: the old contents satisfy it), stated
+				// once and for all rather than under the path condition
+				addFact(nh, Forall([]*Term{r}, rel, inferPatterns([]*Term{r}, rel)...))
+				v.assumptions["volatile "+tc.Key+"."+vs.Field+": foreign code changes it only as declared ("+vs.Text+")"] = true
+			}
+		}
+	}
 }
 
 func (v *Verifier) execUnOp(s *State, t *ssa.UnOp) {
